@@ -37,8 +37,11 @@ TECHNIQUE = ("Coq proof: (1) index discipline, key uniqueness and provenance as 
              "induction over the item list and over the command tree up to parse_top, conservation via C07's abstract fold and "
              "C06's phase frames, the index rule of react folded over the occurrences; third pass: the same simulation for the lifted "
              "class with new step lemmas for = spellings, terminators and MaybeHyphenValue exits, composition with C09's closed form "
-             "of the globals merge, refutation witness for the positional pending bound) + extracted-model/implementation "
-             "correspondence on the complete matches + python un-parser")
+             "of the globals merge, refutation witness for the positional pending bound; fourth pass: one iteration of parse_loop "
+             "split into classification and delivery phases (parse_loop_step, by computation), the trailing-mode loop via C05's "
+             "pos_body, tails of a level as tree constructors, the pending bound as ONE invariant by induction over the loop "
+             "branches, the bridge from the declared command through projection lemmas of _build_self) + extracted-model/"
+             "implementation correspondence on the complete matches + python un-parser")
 LEVEL_TEXT = ("Machine-checked theorems (Coq 8.16, closed under the global context).  (a) For every command accepted by the "
               "validity gate (class: no short flag-subcommands) and every token list, at every level: pairwise distinct keys, "
               "every index a fresh value of the running counter (unique, strictly increasing per argument), every stored value a "
@@ -61,14 +64,33 @@ LEVEL_TEXT = ("Machine-checked theorems (Coq 8.16, closed under the global conte
               "number values of options; parse_top of a rendered tree WITH global arguments = the meaning with C09's final map "
               "inserted at every level (closed form, old and lifted class); pending buffer: opens empty, grows by one token while "
               "below max, every accepted occurrence has min <= #values <= max (the literal bound is refuted for multi-valued "
-              "positionals, crate agrees: TooManyValues).")
-LEVEL_NOTE = ("Outside the (lifted) class (-- directly after an open multi-valued positional run, dont_delimit_trailing_values, last, trailing_var_arg, hyphen "
-              "values of positionals, values after -- for commands with terminators/require_equals/hyphen options, require_equals options given without a value, low-index multiples, allow_missing_positional, flag/external subcommands, ignore_errors, "
-              "args_conflicts_with_subcommands) conservation is checked by the python un-parser / model "
-              "comparison only; conv/convx are stated on the built command (decidable by computation; of the bridge from the command as "
-              "written only the per-argument and settings steps are proved, C02_bridge_*_partial); the pending-buffer bound is proved "
-              "per loop step, not yet as one invariant of the loop.  Trusted: Coq kernel, extraction, "
-              "OCaml driver, Rust harness, generators.")
+              "positionals, crate agrees: TooManyValues).  (d) Fourth pass: convx now also admits last(true) and trailing_var_arg "
+              "positionals, hyphen / negative-number values of POSITIONALS, low-index multiples (<sources>... <target>) and "
+              "allow_missing_positional; trees invy add the tails of a level -- the values after -- (delivered to the corrected "
+              "counter: the highest positional when a last(true) one exists), the run of a trailing_var_arg positional, the run of "
+              "a multi-valued positional with hyphen values (swallows flags, --, subcommand names), the look-ahead run at the "
+              "second-to-last positional (last value to the last positional) -- and C02_unparse_tree_y / _y / _denote_y / _globals_y / "
+              "conservation_tree_y / indices_tree_y are the whole of (b) for them; a token that looks like a flag but is a value of "
+              "the current positional (unknown long, cluster with an unknown short, -<number>) is characterised (hyphen_tok) and "
+              "short clusters are clusters exactly when they are not such a token (cluster_clear).  THE BRIDGE IS COMPLETE: "
+              "C02_bridge / C02_bridge_x (user_conventional[x] c0 -> conv / convx (build_self c0) for ALL valid c0: generated "
+              "--help/--version flags, Arg::_build, index assignment, deprecated-settings push, Built mark; the low-index conjunct "
+              "is derived from the declared arguments) and C02_unparse_user(_y): the un-parser theorem stated on the command as "
+              "written.  C02_pending_bounded IS ONE INVARIANT of parse_loop: for all assert_app commands, all token lists, all "
+              "exits of the loop (errors included), the occurrence being collected for an OPTION never holds more than "
+              "num_args.max values (C02_pending_invariant: PB holds initially and is re-established at every iteration).")
+LEVEL_NOTE = ("Outside the lifted class (-- directly after an open multi-valued positional run, dont_delimit_trailing_values, the values "
+              "after -- for commands with a low-index multiple, a value equal to a positional's terminator after --, a multi-valued "
+              "positional with negative-number (not hyphen) values whose run stays open, require_equals options given without a "
+              "value, a subcommand directly after a look-ahead run, flag/external subcommands, ignore_errors, "
+              "args_conflicts_with_subcommands, subcommand_precedence_over_arg) conservation is checked by the python un-parser / "
+              "model comparison only.  The bridge discharges the class conjunct of the ROOT level; the items (names resolve, value "
+              "tokens) and the class of the children of a tree (their arguments include propagated globals) are still checked on "
+              "the built command by computation.  The pending bound is for options; for multi-valued positionals it stays refuted "
+              "(their run is counted when flushed: C02_flushed_in_range).  The python un-parser stream renders the conventional "
+              "grammar; the fourth-pass shapes are tied to the crate by the corpus lines of the Coq examples (expectations = the "
+              "pinned theorem statements) and by the shared generators' model/implementation comparison.  Trusted: Coq kernel, "
+              "extraction, OCaml driver, Rust harness, generators.")
 
 VALS = [b"v", b"w", b"x1", b"1", b"0", b"zz", b"v=w", b"a.b", "é".encode(), b"3", b"=", b"e=", b"long-value", b"x y"]
 # values only an OsString-typed argument accepts: not well-formed UTF-8 (the grammar, and the split at the declared
